@@ -49,3 +49,39 @@ class ParseGroupType:
             return True
         r = feature.relations[0]
         return implies(rclass(r) == CARD, result == str(r.card_min) + '..' + str(r.card_max))
+
+
+# ------------------------------------------------------------------ identifiers and attribute types
+SAFE = 'abcdefghijklmnopqrstuvwxyzABCDEFGHIJKLMNOPQRSTUVWXYZ0123456789_'
+NAME_SAMPLES = ['A', 'a_b', 'x y', '"q"', 'a"b', '"', '', 'Ünï', '1st', 'A AND B', ' ', 'a-b', 'a.b', 'Z9_']
+
+
+@contract(TR + 'clafer_writer.py', 'safename', prop='C11')
+class ClaferSafename:
+    """the identifier written for a name is a function of the name alone (the same wherever it is declared and used): the name
+    itself when it is made of letters, digits and '_', the name between double quotes otherwise"""
+    gen_name = staticmethod(lambda model: NAME_SAMPLES)
+
+    def post_shape(name, result):
+        return result == name or result == '"' + name + '"'
+
+    def post_plain_iff_safe(name, result):
+        return (result == name) == all(ch in SAFE for ch in name)
+
+
+@contract(TR + 'clafer_writer.py', 'parse_type_value', prop='C11')
+class ClaferTypeOfValue:
+    """the Clafer primitive type declared for an attribute is the type of its default value (a bool is not an integer)"""
+    gen_value = staticmethod(lambda model: [True, False, 0, 1, -3, 2.5, 0.0, 'x', '', None])
+    kinds = {'value': 'PyObject'}      # any Python value: its types are uninterpreted predicates (a bool may also be an int)
+
+    def post(value, result):
+        if isinstance(value, bool):
+            return result == 'boolean'
+        if isinstance(value, int):
+            return result in ['integer', 'int']
+        if isinstance(value, float):
+            return result in ['double', 'real']
+        if isinstance(value, str):
+            return result == 'string'
+        return result == ''
